@@ -16,6 +16,7 @@ var c17Corpus = []corpusCase{
 	{"D10-two-operations", withVars(fixedIn(`query A { me { firstName lastName } } query B { allUsers { lastName } }`), "B", nil), "scrub paths used to come from the first operation"},
 	{"D10-shared-path-leak", withVars(fixedIn(`query A { me { id firstName lastName } } query B { me { firstName lastName } }`), "B", nil), "id must not leak into B because A asks for it"},
 	{"D10-shared-path-vanish", withVars(fixedIn(`query A { me { firstName lastName } } query B { me { id firstName lastName } }`), "B", nil), "id must not vanish from B because A does not ask for it"},
+	{"neighbour-with-a-required-variable", withVars(fixedIn(`query One($id: ID!) { user(id: $id) { firstName } } query Two { me { firstName lastName } }`), "Two", nil), "naming Two needs none of One's variables"},
 	{"missing-name", withVars(fixedIn(`query A { me { firstName } } query B { me { lastName } }`), "", nil), "error, no service contacted"},
 	{"unknown-name", withVars(fixedIn(`query A { me { firstName } } query B { me { lastName } }`), "Z", nil), "error, no service contacted"},
 	{"single-operation-unknown-name", withVars(fixedIn(`query A { me { firstName lastName } }`), "Z", nil), "error, no service contacted"},
@@ -144,6 +145,14 @@ func (c17) Run(c *Ctx, i int) CaseResult {
 			res.Fails = append(res.Fails, Failure{Channel: "L0.mono", Classifier: cl, What: fmt.Sprintf("operation %q of a %d-operation document: %s", name, nops, what), Input: in, Expected: fc.Want,
 				Observed: map[string]interface{}{"data": fc.Out.Data, "error": ErrString(fc.Out.Err), "plan": PlanText(fc.Out.Plans)}})
 			continue
+		}
+		// the same through the HTTP handler: the neighbours (their variables, their names) do not matter there either
+		if nops > 1 {
+			if hf := HTTPSameFail(in, fc); hf != nil {
+				hf.What = fmt.Sprintf("operation %q of a %d-operation document: %s", name, nops, hf.What)
+				res.Fails = append(res.Fails, *hf)
+				continue
+			}
 		}
 		// the same operation alone
 		if nops > 1 {
